@@ -13,6 +13,7 @@ from __future__ import annotations
 import json
 import math
 import os
+import sys
 import tempfile
 import warnings
 from datetime import datetime, timedelta
@@ -21,7 +22,7 @@ from pathlib import Path
 
 import numpy as np
 
-from . import common
+from . import c14_tms, common
 from .common import Ctx, hexs
 
 TEXT_CHARS = "ABCDEFGHIJKLMNOPQRSTUVWXYZabcdefghijklmnopqrstuvwxyz0123456789-_./()+,:;=<>[]%&'\"!?@$^~|{}"
@@ -904,6 +905,10 @@ def run(ctx: Ctx):
         for f in corpus:
             replay_case(ctx, impl, drv, json.loads(f.read_text()))
         converter_cases(ctx, impl, drv, rng, ctx.budget(2000, 20000))
+        me = sys.modules[__name__]
+        c14_tms.genfromtxt_cases(ctx, impl, drv, rng, ctx.budget(400, 6000), me)
+        for _ in range(ctx.budget(250, 3000)):
+            c14_tms.tms_case(ctx, impl, drv, rng, quick, me)
         nb = ctx.budget(400, 5000)
         for _ in range(nb):
             base_case(ctx, impl, drv, spec, rng, quick)
